@@ -465,3 +465,11 @@ func FieldOfDeep(v ssa.Value, fieldName string) (ssa.Value, bool) {
 		return b, true
 	}
 }
+
+// DerefOnce: for *p returns p, otherwise v.
+func DerefOnce(v ssa.Value) ssa.Value {
+	if u, ok := StripConv(v).(*ssa.UnOp); ok && u.Op == token.MUL {
+		return u.X
+	}
+	return v
+}
